@@ -11,8 +11,8 @@ for lc in $(python3 -c "import json;print(' '.join(c['property_id'].lower() for 
   if [ -n "$ld" ]; then go build -tags verif -ldflags "$ld" -o "bin/$lc" "./$d" || rc=1
   else go build -tags verif -o "bin/$lc" "./$d" || rc=1; fi
   if [ -f "$d/race" ]; then
-    if [ -n "$ld" ]; then go build -race -tags verif -ldflags "$ld" -o "bin/$lc.race" "./$d" || rc=1
-    else go build -race -tags verif -o "bin/$lc.race" "./$d" || rc=1; fi
+    if [ -n "$ld" ]; then go build -race -gcflags=golang.org/x/crypto/sha3=-d=checkptr=0 -tags verif -ldflags "$ld" -o "bin/$lc.race" "./$d" || rc=1
+    else go build -race -gcflags=golang.org/x/crypto/sha3=-d=checkptr=0 -tags verif -o "bin/$lc.race" "./$d" || rc=1; fi
   fi
 done
 exit $rc
